@@ -12,6 +12,9 @@ import Parsley.Spec.Xref
         table) replaced by the chunk (M), and everything after that chunk cut off (X).
   xs <enc> <dictspec> <contenthex> <pos>      cross-reference stream, unfiltered content
   xz <mode> <dictspec> <rowshex>              the harness compresses the rows (zlib, optional PNG Up)
+        mode = <p><l>: p in {0 no /DecodeParms, 1 /Predictor 1, u PNG Up}; l in {0 stored, 6 default compression,
+        a..g default compression with the encoder's window set to 2^9..2^15 bytes (zlib header 18 xx .. 78 xx, RFC 1950
+        CINFO 1..7), h the smallest window's header 08 99 on a payload of at most 256 bytes}: every legal window size
 
   vw <steps> <prehex> <sufhex> <tab … | xs … | xz …>
         the same case on a RESTRICTED VIEW (Driver/ViewTwin.lean): the bytes the parser is to see (tab: <hex>,
@@ -749,6 +752,18 @@ def gen (seed n : Nat) (tier : String) (emit0 : String → IO Unit) : IO Unit :=
   r := r2
   emit s!"xs 0 {dictStr [("Type", "nXRef"), ("Size", s!"i{big}"), ("W", "A(i1,i3,i2)")]} {hexOfBytes (XrefSpec.encRows 1 3 2 bs)} 0"
   emit s!"xz u6 {dictStr [("Type", "nXRef"), ("Size", s!"i{big}"), ("W", "A(i1,i3,i2)")]} {hexOfBytes (XrefSpec.encRows 1 3 2 bs)}"
+  -- the encoder's WINDOW varied: a conformant zlib stream may declare any window 2^8 .. 2^15 (RFC 1950 CINFO 0..7; first
+  -- byte 08, 18, .. 78).  Every window x {no parameters, /Predictor 1, PNG Up} x {plain, /Index}, and the large table
+  let mut wi := 0
+  for wc in ["a", "b", "c", "d", "e", "f", "g", "h"] do
+    for p in ["0", "1", "u"] do
+      wi := wi + 1
+      let (nrows, r1) := r.nat 6
+      let ((d, rows), r2) := streamCase 1 2 1 (wi % 2 == 1) (nrows + 1) r1
+      r := r2
+      if !rows.isEmpty then
+        emit s!"xz {p}{wc} {dictStr d} {hexOfBytes rows}"
+    emit s!"xz u{wc} {dictStr [("Type", "nXRef"), ("Size", s!"i{big}"), ("W", "A(i1,i3,i2)")]} {hexOfBytes (XrefSpec.encRows 1 3 2 bs)}"
 
 /-- non-trivial: a described table with at least two subsections or a corruption; a stream case
     with at least two rows' worth of content or a dictionary lacking/with altered standard keys -/
